@@ -109,6 +109,7 @@ type goVariant struct {
 	PtrLevel  int  // extra pointer indirections on scalars
 	NullWrap  bool // null.* wrappers for nullable scalars
 	PtrStruct bool // pointers to nested records
+	PtrColl   bool // pointers to slices and maps (*[]T, *map[string]T)
 }
 
 var errNoTarget = fmt.Errorf("no Go target for this schema")
@@ -171,6 +172,9 @@ func goTypeFor(s node, v goVariant, depth int) (reflect.Type, error) {
 		if err != nil {
 			return nil, err
 		}
+		if v.PtrColl && depth > 0 {
+			return reflect.PointerTo(reflect.SliceOf(e)), nil
+		}
 		return reflect.SliceOf(e), nil
 	case "map":
 		if len(kids) == 0 {
@@ -179,6 +183,9 @@ func goTypeFor(s node, v goVariant, depth int) (reflect.Type, error) {
 		e, err := goTypeFor(kids[0], v, depth+1)
 		if err != nil {
 			return nil, err
+		}
+		if v.PtrColl && depth > 0 {
+			return reflect.PointerTo(reflect.MapOf(reflect.TypeOf(""), e)), nil
 		}
 		return reflect.MapOf(reflect.TypeOf(""), e), nil
 	case "union":
